@@ -5,7 +5,7 @@
 
 For each property: runs the thorough tier's coverage-guided stage only (VERIF_STAGES=tapefuzz) with VERIF_TAPEFUZZ_KEEP, which
 leaves the libFuzzer-merged (coverage-minimal) corpus of every random stage in a scratch directory, and writes
-corpus/<ID>/cov-<stage>.json = {"property", "stage", "mode": "bytes", "tapes_hex": [...]} (smallest units first, at most K).
+corpus/<ID>/cov-<stage>.json = {"property", "stage", "mode": "bytes", "tapes_hex": [...]} (an even spread over the size-sorted units, at most K).
 Both tiers replay these files first, like every other file under corpus/<ID>/. The evidence file is restored afterwards.
 """
 import json, os, shutil, subprocess, sys
@@ -49,7 +49,9 @@ def main():
                 if b:
                     units.append(b)
             units.sort(key=lambda b: (len(b), b))
-            units = units[:maxu]
+            if len(units) > maxu:
+                # an even spread over the size-sorted list: the short tapes (simple cases) and the long ones (deep histories) alike
+                units = [units[(i * (len(units) - 1)) // (maxu - 1)] for i in range(maxu)]
             out = os.path.join(HERE, "corpus", pid, f"cov-{stage}.json")
             os.makedirs(os.path.dirname(out), exist_ok=True)
             json.dump({"property": pid, "stage": stage, "mode": "bytes",
